@@ -321,9 +321,10 @@ Qed.
               not made here) and is the function [content_info]; the storage adapter's switch and the historical-summaries
               record handling of Model/Dispatch.v.
    STILL ABSTRACT: the library functions named above (hypothesis: they return - for state also that the node decoder yields
-   nodes of its own shape, as in C13_total); for state the two ztyp Deserialize calls: Model/WireState.v has the decoders
-   ([state_dec_item], used in the Example) but no totality theorem yet (C14 is partial there), so [sl_dec_item] carries a
-   no-panic hypothesis; pebble (Put / Get behind the adapters: C04 / C05 / C17); the ephemeral-header path of the history
+   nodes of its own shape, as in C13_total).  The two ztyp Deserialize calls of the state network are NOT abstract any more:
+   the theorems over an arbitrary [sl_dec_item] keep its no-panic hypothesis, the _concrete variants fix it to the decoders
+   of Model/WireState.v ([state_dec_item], [slib_concrete]) and discharge it with C14_decoders_total_state's lemmas, leaving
+   exactly the hypotheses of C13_total.  Further abstract: pebble (Put / Get behind the adapters: C04 / C05 / C17); the ephemeral-header path of the history
    network (keys 0x04 / 0x05: the validator refuses them, C02_other_selectors_rejected; the ephemeral store is not modelled);
    the content queue, the ants pool and the Gossip call that follows a successful validateContents (C20); the oracle RPC.
    ====================================================================================================================== *)
@@ -418,6 +419,31 @@ Theorem C01_state_offered_content_total : forall L keys payload s,
   fst (state_offered_contents L keys payload s) <> Panic.
 Proof. exact (fun L keys payload s H1 H2 H3 H4 H5 => state_offered_total L keys payload s (conj H1 (conj H2 (conj H3 (conj H4 H5))))). Qed.
 Print Assumptions C01_state_offered_content_total.
+
+(* the same with the two Deserialize calls being the ztyp decoders of Model/WireState.v (AccountTrieNodeKey /
+   ContractStorageTrieNodeKey / ContractBytecodeKey and the three ...WithProof containers): their totality is C14's
+   (C14_decoders_total_state), so only the hypotheses of C13_total remain - for every key and content byte string *)
+Theorem C01_state_dec_item_total : forall t body content, state_dec_item t body content <> Panic.
+Proof. exact state_dec_item_total. Qed.
+Print Assumptions C01_state_dec_item_total.
+Theorem C01_state_content_total_concrete : forall node_hash decode decode_account header cid i key content,
+  (forall b n, decode b = Ok n -> wf_node n = true) ->
+  (forall b, decode b <> Panic) -> (forall b, decode_account b <> Panic) -> (forall j b, header j b <> Panic) ->
+  state_validate (slib_concrete node_hash decode decode_account header cid) i key content <> Panic.
+Proof.
+  exact (fun nh d da h cid i key content H1 H2 H3 H4 =>
+           state_validate_total (slib_concrete nh d da h cid) i key content (slib_concrete_ok nh d da h cid H1 H2 H3 H4)).
+Qed.
+Print Assumptions C01_state_content_total_concrete.
+Theorem C01_state_offered_content_total_concrete : forall node_hash decode decode_account header cid keys payload s,
+  (forall b n, decode b = Ok n -> wf_node n = true) ->
+  (forall b, decode b <> Panic) -> (forall b, decode_account b <> Panic) -> (forall j b, header j b <> Panic) ->
+  fst (state_offered_contents (slib_concrete node_hash decode decode_account header cid) keys payload s) <> Panic.
+Proof.
+  exact (fun nh d da h cid keys payload s H1 H2 H3 H4 =>
+           state_offered_total (slib_concrete nh d da h cid) keys payload s (slib_concrete_ok nh d da h cid H1 H2 H3 H4)).
+Qed.
+Print Assumptions C01_state_offered_content_total_concrete.
 
 (* C13_history_store through the composition (no hypothesis): whatever is under a content id afterwards was there before, or
    is the final node / the code of a pair of a known key type whose decoded form satisfied C13's chain predicate against the
